@@ -33,7 +33,7 @@ and “Parameters”: Pass State, Task State, and Parallel State.
 import sys
 assert sys.version_info >= (3, 0)  # Bomb out if not running Python3
 
-import hashlib, random, re, uuid
+import copy, hashlib, random, re, uuid
 
 """
 ASL paths use JSONPath.
@@ -175,7 +175,13 @@ def apply_resultpath(input, result, path="$"):
     """
     def update_path(target, keys, default):
         if len(keys) == 0:
-            return default
+            """
+            Place a copy of the result. The result may be (part of) the input
+            itself, e.g. a Pass state with no Result, or an InputPath selecting
+            a sub-tree, and placing the same object inside itself would create
+            a circular reference.
+            """
+            return copy.deepcopy(default)
         key = keys.pop(0)
         if isinstance(target, list):
             try:
